@@ -267,6 +267,7 @@ def run_case(case, mode):
 
 def main_():
     import gc
+    gc.disable()
     inp = json.load(open(sys.argv[1]))
     import sc3
     mode = inp.get('mode', 'nrt')
@@ -281,9 +282,11 @@ def main_():
     for i, case in zip(inp['ids'], inp['cases']):
         out.append({'id': i, 'prog': case['prog'], 'conds': case['conds'], 'flows': case['flows'],
                     'ev': run_case(case, mode)})
-        # bodies, routines and their closures form reference cycles: finalise the abandoned generators of this case
-        # NOW (their clean-up code may call the library), not at some allocation inside a later case
-        gc.collect()
+        # bodies, routines and their closures form reference cycles; the clean-up code of an abandoned generator may
+        # call the library, so it must not run at some allocation inside a LATER case: automatic collection is off
+        # (see below) and the cycles are collected here, between cases
+        if len(out) % 20 == 0:
+            gc.collect()
     json.dump({'traces': out}, open(sys.argv[2], 'w'))
 
 
